@@ -136,6 +136,64 @@ class Fn:
         fs = sorted({render(ln, False) + ("==0" if op == "eq" else "<=0") for ln, op in facts})
         return req, fs
 
+    def alpha_defs(self, goals):
+        """Rename-invariant description of how each *named variable* the requirement speaks about is assigned in this
+        function: {placeholder: sorted assignment forms}.  A review that argues from "end_index only ever becomes the
+        length or an earlier index" is only as good as that set of assignments."""
+        bnd = self.bnd
+        order = []
+        for g in goals or []:
+            for base, v in sorted(g.t.items(), key=lambda it: (it[0][0], -it[1], self.show_base(it[0]))):
+                if base not in order:
+                    order.append(base)
+        name_of = {}
+        for i, base in enumerate(order):
+            name_of[base] = "%s%d" % ({"L": "v", "op": "t", "len": "n", "pl": "p"}.get(base[0], "x"), i)
+        by_local = {base[1]: nm for base, nm in name_of.items() if base[0] in ("L", "op")}
+
+        def role(l):
+            r = root_local(bnd, l)
+            if r in by_local:
+                return by_local[r]
+            if l in by_local:
+                return by_local[l]
+            return "?" + self.b.locals[r]["s"]
+
+        def form(rv, depth=0):
+            k = rv.get("k")
+            if k == "use" and rv["op"]["k"] == "const":
+                return "c%s" % rv["op"].get("int", rv["op"].get("repr"))
+            f = inc_form(bnd, rv)
+            if f is not None:
+                return "%s%+d" % (role(f[0]), f[1])
+            if k == "use" and rv["op"]["k"] in ("copy", "move"):
+                pl = rv["op"]["place"]
+                if not pl["p"]:
+                    sd = bnd.single_def(pl["l"])
+                    if sd is not None and depth < 4 and not self.b.locals[pl["l"]].get("name"):
+                        return form(sd[2], depth + 1)
+                    return "=" + role(pl["l"])
+                return "=proj"
+            if k == "cast" and rv["op"]["k"] in ("copy", "move") and not rv["op"]["place"]["p"]:
+                sd = bnd.single_def(rv["op"]["place"]["l"])
+                if sd is not None and depth < 4 and not self.b.locals[rv["op"]["place"]["l"]].get("name"):
+                    return "cast(" + form(sd[2], depth + 1) + ")"
+                return "cast(" + role(rv["op"]["place"]["l"]) + ")"
+            if k == "call":
+                return "call:" + callee_name(rv["t"]).split("::")[-1]
+            if k == "binop":
+                return "binop:" + rv["op"]
+            return str(k)
+        out = {}
+        for base, nm in name_of.items():
+            if base[0] != "L" or not self.b.locals[base[1]].get("name"):
+                continue
+            if base[1] <= self.b.mir["arg_count"]:
+                out[nm] = ["param"]
+                continue
+            out[nm] = sorted({form(rv) for bb, k, rv in bnd.defs.get(base[1], [])})
+        return out
+
     def is_counter(self, local):
         bnd = self.bnd
         defs = bnd.defs.get(local, [])
@@ -423,14 +481,19 @@ def run(ctx):
                      ("ret(%s)" % e["callee"]) in what and e.get("premises")]
             cands = cands[:1]
             k_dup = 0
+        adefs = fn.alpha_defs(goals) if goals and kind in ("P3", "P4") else {}
         if os.environ.get("C18_DUMP"):
-            dump.append({"fn": b.npath, "kind": kind, "req": areq, "facts": afacts, "line": line, "what": what})
+            dump.append({"fn": b.npath, "kind": kind, "req": areq, "facts": afacts, "line": line, "what": what, "defs": adefs})
         if k_dup < len(cands):
             ent = cands[k_dup]
             used_reviews.add(id(ent))
             missing = [f for f in ent.get("facts", []) if f not in afacts]
+            changed = {k_: (v_, adefs.get(k_)) for k_, v_ in (ent.get("defs") or {}).items() if adefs.get(k_) != v_}
             if missing:
                 why_fail = "%s; reviewed, but the guard(s) the review relied on are no longer in force at the site: %s" % (why_fail, missing)
+            elif changed:
+                why_fail = "%s; reviewed, but a variable the review reasons about is now assigned differently: %s" % (
+                    why_fail, "; ".join("%s was %s, is %s" % (k_, a_, b_) for k_, (a_, b_) in sorted(changed.items())))
             else:
                 ok, msg = c18_premises.check(ent, prog, cg, b, R)
                 if ok:
